@@ -176,8 +176,27 @@ class FakeSelector:
     def get_key(self, fileobj):
         return self.map[fileobj]
 
+    def ready(self):
+        """what a real selector would report now, in registration order: listening sockets with a pending connection and
+        sockets with bytes (or an end-of-stream) to read are readable; connected sockets registered for writing are
+        writable"""
+        out = []
+        for sock, k in list(self.map.items()):
+            mask = 0
+            if k.events & EVENT_READ:
+                if sock.listening:
+                    if sock.backlog:
+                        mask |= EVENT_READ
+                elif sock.rx or sock.remote_closed:
+                    mask |= EVENT_READ
+            if k.events & EVENT_WRITE and sock.connected and not sock.listening:
+                mask |= EVENT_WRITE
+            if mask:
+                out.append((k, mask))
+        return out
+
     def select(self, timeout=None):
-        return []
+        return self.ready()
 
     def close(self):
         pass
@@ -430,13 +449,14 @@ class Remote:
         if deliver:
             self.node.deliver(self.node_sock)
 
-    def send(self, message, in_response_to=0, deliver=True):
-        self.send_raw(self.frame(message, in_response_to), deliver)
+    def send(self, message, in_response_to=0, deliver=True, ts=None):
+        self.send_raw(self.frame(message, in_response_to, ts), deliver)
 
-    def hello(self, my_port=2412, nonce=987654):
+    def hello(self, my_port=2412, nonce=987654, ts=None):
+        """ts: the (sender-chosen) time stamp in the message header"""
         from ipaddress import IPv6Address
         from skepticoin.networking.messages import HelloMessage, SupportedVersion
-        self.send(HelloMessage([SupportedVersion(0)], IPv6Address('::ffff:1.1.1.1'), 0, IPv6Address(0), my_port, nonce, b'vf'))
+        self.send(HelloMessage([SupportedVersion(0)], IPv6Address('::ffff:1.1.1.1'), 0, IPv6Address(0), my_port, nonce, b'vf'), ts=ts)
 
     def received(self):
         """parse and drain everything the node has sent on this connection: list of (header, message)"""
